@@ -19,6 +19,7 @@ EXPLANATION = (
     "C08.E5: every digest operand is the as_str()-Some of a JSON value (else Err) and an array placeholder reaches the lookup only with exactly one member."
     " C08.E3 also (completeness): no copy of a plain member into the object under construction is reachable after the place where the `_sd` digests are applied, so the DuplicateKey check sees every plain member."
     " C08.E6: every array and object of the payload and of every disclosed value goes through the full walker (the clause C03.V6 / C01.a judged under C08: a container handed back unwalked escapes the duplicate-digest bookkeeping and every placeholder / arity check beneath it); a fast path reachable only when the container holds no array and no object is the identity and is accepted."
+    " C08.E8 (reject, not skip): once a digest matched a disclosure every path to the next iteration / Ok passes the sink (clause shared with C01.c), and the 'seen before' edge of the duplicate-digest test leads only to Err exits."
     " C08.E7 (error discipline): every Result a crate-local call produces inside the claim-unpacking functions is handed on or branched on with the failure edge leading only to Err exits; a Result-returning closure is not handed to an adaptor that iterates over / discards it (flat_map, flatten, filter_map, ..)."
 )
 ASSUMPTIONS = [
@@ -43,6 +44,45 @@ def run(ctx):
     # (more lenient than the specification). Rule shared with C03.V6 / C01.a.
     c03.v6(common.RelabelCtx(ctx, "C08.E6"), fx, U, "C08.E6")
     e7(ctx, fx, U)
+    e8(ctx, fx, U)
+
+
+def e8(ctx, fx, U):
+    """E8 (reject, not skip): the guards of E1-E3 say that an ill-formed structure never reaches a sink; the specification asks for more --
+    the presentation is *rejected*. (i) Once a digest matched a disclosure, every path to the next iteration / an Ok exit passes the
+    sink: a disclosure of the wrong arity, with a reserved or colliding name is not silently passed over like a decoy (the clause
+    C01.c member-kept / element-kept judged under C08). (ii) The 'seen before' edge of the duplicate-digest test leads only to Err exits:
+    a repeated digest is not skipped."""
+    import c01
+    c01.clause_c(common.RelabelCtx(ctx, "C08.E8", keep=("member-", "element-")), fx, U)
+    from unpackmodel import _seen_field, SET_TYS
+    ndup = 0
+    for (fn, b, n) in U.lookups:
+        key = n.kids[1]
+        seen_edges = []
+        for (bb, tt, ft, c) in bool_switches(fn):
+            if c.kind != "call" or len(c.kids) != 2:
+                continue
+            mb = common.membership(c)
+            if mb is not None:
+                cont = peel(mb[0])
+                if cont.kind == "field" and c07.same_key(mb[1], key):
+                    seen_edges.append((bb, tt))
+                continue
+            if _seen_field(c) is not None and c07.same_key(c.kids[1], key) and c.d["term"].get("name") == "insert" and (c.d["term"].get("self_ty") or "").startswith(SET_TYS):
+                seen_edges.append((bb, ft))
+        if not seen_edges:
+            continue   # (the absence of the test itself is E1's finding)
+        ndup += 1
+        heads = set(h for (_, h) in cfg.back_edges(fn))
+        r = cfg.reachable(fn, [t_ for (_, t_) in seen_edges])
+        oks = [e for e in cfg.exit_sites(fn) if e["kind"] not in ("Err", "residual") and e["bb"] in r]
+        if oks or any(h in r for h in heads):
+            ctx.finding("C08.E8", fn, "duplicate-rejected", "a digest seen before is skipped (the 'seen' edge of the duplicate test reaches %s) instead of making the verification fail"
+                        % ("an Ok exit" if oks else "the next iteration"), line=fn.term(seen_edges[0][0]).get("line"))
+        else:
+            ctx.ok("C08.E8", fn, "duplicate-rejected", "the 'seen before' edge of the duplicate-digest test leads only to Err exits", line=fn.term(seen_edges[0][0]).get("line"))
+    ctx.floor("C08.E8", "duplicate-digest tests", ndup, 2)
 
 
 class ProxyCtx:
